@@ -273,6 +273,30 @@ def reshape_tightens_units(s):
     s.reads()
 
 
+def list_form_duplicates(s):
+    """C01 / C11: the list form of PUT /allocations (below 1.12) naming a provider twice:
+    the last entry replaces the first; amounts are judged as stored."""
+    s.mk('p1')
+    s.mk('p2', 'p1')
+    s.invs('p1', VCPU=INV(16, max_unit=4), DISK_GB=INV(100, step_size=5))
+    s.invs('p2', VCPU=INV(4, min_unit=2))
+    for v in (0, 7, 8, 11):
+        def put(c, allocs):
+            e = s.entry(c, {}, cgen=-1)
+            e['allocs'] = allocs
+            return s.do(op='alloc_put', v=v, **e)
+        put('c1', [{'u': 'p1', 'res': [{'rc': 'VCPU', 'amt': 4}]}, {'u': 'p1', 'res': [{'rc': 'VCPU', 'amt': 4}]}])
+        s.reads()
+        put('c2', [{'u': 'p1', 'res': [{'rc': 'VCPU', 'amt': 3}]}, {'u': 'p2', 'res': [{'rc': 'VCPU', 'amt': 2}]},
+                   {'u': 'p1', 'res': [{'rc': 'VCPU', 'amt': 2}, {'rc': 'DISK_GB', 'amt': 10}]}])
+        s.reads()
+        put('c1', [{'u': 'p1', 'res': [{'rc': 'VCPU', 'amt': 5}]}, {'u': 'p1', 'res': [{'rc': 'VCPU', 'amt': 1}]}])   # the dropped entry breaks max_unit
+        put('c1', [{'u': 'p1', 'res': [{'rc': 'DISK_GB', 'amt': 5}]}, {'u': 'p1', 'res': [{'rc': 'DISK_GB', 'amt': 7}]}])   # the kept one breaks step_size
+        s.reads()
+        s.do(op='alloc_del', v=39, c='c1')
+        s.do(op='alloc_del', v=39, c='c2')
+
+
 def sync_histories(s):
     """C19: start-up synchronisation from an empty, a partially and a fully
     synchronised database, repeated, interleaved with API requests."""
@@ -375,6 +399,7 @@ SCENARIOS = {
     'subtree_moves': subtree_moves,
     'consumer_lifecycle': consumer_lifecycle,
     'names_lifecycle': names_lifecycle,
+    'list_form_duplicates': list_form_duplicates,
     'reshape_tightens_units': reshape_tightens_units,
 }
 
